@@ -106,12 +106,13 @@ def run():
             t.check("TLAPS proves %s (%s)" % (mod, what), "All 3 obligations proved" in p.stdout,
                     p.stdout.strip().splitlines()[-1][:80] if p.stdout.strip() else "")
         # inductive invariants of the two stopping rules, for every table length (spec/proofs)
-        for mod, base, what in (("GaussStopLemmas", "GaussStop", "never before the second rule"),
-                                ("TanhSinhLemmas", "TanhSinhStop", "never before the third level")):
+        for mod, base, what, nob in (("GaussStopLemmas", "GaussStop", "never before the second rule, every N", 18),
+                                     ("TanhSinhLemmas", "TanhSinhStop", "never before the third level, every N", 18),
+                                     ("LmControlLemmas", "LmControl", "block accounting and search bound, every cap", 36)):
             shutil.copy(os.path.join(vlib.SPEC, base + ".tla"), tmp)
             shutil.copy(os.path.join(vlib.SPEC, "proofs", mod + ".tla"), tmp)
             p = vlib.sh(["timeout", "300", "tlapm", "--threads", "4", mod + ".tla"], cwd=tmp, check=False, timeout=400)
-            t.check("TLAPS proves %s (%s, every N)" % (mod, what), "All 18 obligations proved" in p.stdout,
+            t.check("TLAPS proves %s (%s)" % (mod, what), "All %d obligations proved" % nob in p.stdout,
                     ([l for l in p.stdout.strip().splitlines() if "obligations" in l] or [""])[-1][:80])
     finally:
         shutil.rmtree(tmp, ignore_errors=True)
